@@ -34,6 +34,7 @@ type vhC02 struct {
 	paren, nspad bool
 	enc          [][]string
 	valid        bool
+	sub          *vhR02 // the expression is a Stack: its rendering is the value
 }
 
 func vhCondense(s string) string {
@@ -108,7 +109,11 @@ func vhRenderCond(c *vhC02) string {
 	if c.nspad {
 		pad = ""
 	}
-	s := c.kw + pad + c.op + pad + vhEncap(c.enc, c.val)
+	val := c.val
+	if c.sub != nil {
+		val = vhRender(c.sub)
+	}
+	s := c.kw + pad + c.op + pad + vhEncap(c.enc, val)
 	if c.paren {
 		s = "(" + pad + s + pad + ")"
 	}
@@ -303,6 +308,13 @@ func (b *vhB02) build(depth, maxw int) (Stack, *vhR02) {
 			val := vhFixedTexts[g.next(len(vhFixedTexts))]
 			c := Cond("kw", Ge, val)
 			cd := &vhC02{kw: "kw", op: ">=", val: val, valid: val != ""}
+			if depth > 1 && g.next(3) == 0 {
+				// the expression is a Stack: rendered as it renders itself,
+				// inside the Condition's own encapsulation
+				sub, sd := b.build(depth-1, maxw)
+				c = Cond("kw", Ge, sub)
+				cd = &vhC02{kw: "kw", op: ">=", valid: true, sub: sd}
+			}
 			if g.next(2) == 1 {
 				c.SetNoPadding(true)
 				cd.nspad = true
